@@ -348,6 +348,11 @@ func (r *resolver) resolve(ctx context.Context, vk resolve.VersionKey, requireme
 
 			if id, ok := nodes[match.VersionKey]; ok {
 				// The version key is already in the graph, just add an edge.
+				// The artifact (this classifier or type of the package) is
+				// resolved to that version all the same: a later requirement
+				// that selects another version of it is incompatible.
+				concreteVersions[c] = id
+				resolvedPackages[c.packageKey] = true
 				if err := g.AddEdge(concreteVersions[cur.versionKey], id, d.Version, d.Type); err != nil {
 					return nil, false, err
 				}
